@@ -34,15 +34,15 @@ func c19GenB(thorough bool) func(emit func(c19Base)) {
 			for i := 0; i < n; i++ {
 				dims = append(dims, 4)
 			}
-			// last-shard class in cycle 1, new targets, head, idle, min-shard, cycle-2 change
-			dims = append(dims, 2, 3, 2, 2, 2, 3)
+			// last-shard class in cycle 1, new targets, head, idle, min-shard, cycle-2 change, relief disabled
+			dims = append(dims, 2, 3, 2, 2, 2, 3, 2)
 			product(dims, func(ix []int) {
 				head := []int64{0, 100}[ix[n+2]]
 				idle := []int64{0, 3600}[ix[n+3]]
 				min := []int32{0, 3}[ix[n+4]]
 				change := ix[n+5]
 				mk := func(cycle int) *B {
-					b := newB(h1.Opt{MaxHead: head, MaxProc: 100, MaxShard: 99, MinShard: min, IdleSec: idle}, n)
+					b := newB(h1.Opt{MaxHead: head, MaxProc: 100, MaxShard: 99, MinShard: min, IdleSec: idle, NoRelieve: ix[n+6] == 1}, n)
 					for s := 0; s < n; s++ {
 						hA := uint64(100 * (s + 1))
 						fill := int64(0)
@@ -86,7 +86,7 @@ func c19GenB(thorough bool) func(emit func(c19Base)) {
 	}
 }
 
-var c19ANames = []string{"identical", "holds-pending-move", "all-unready", "shards-error", "scale-error-first", "scale-error-second", "overloaded", "holds-bigger-copy"}
+var c19ANames = []string{"identical", "holds-pending-move", "all-unready", "shards-error", "scale-error-first", "scale-error-second", "overloaded", "holds-bigger-copy", "unchangeable-shard-reports-vanished-target", "needs-space"}
 
 // c19A builds replica A (for both cycles) of the given kind relative to B.
 func c19A(kind int, base *h1.Scenario, cycle int) h1.Replica {
@@ -125,6 +125,14 @@ func c19A(kind int, base *h1.Scenario, cycle int) h1.Replica {
 	case 7: // A scrapes targets 1 and 2 itself, normally, with bigger sizes than the estimate
 		return h1.Replica{Shards: []h1.Shard{
 			{Ready: true, Status: map[uint64]h1.St{1: {State: "", Health: "up", Times: 5, Series: 30, Total: 30}, 2: {State: "in_transfer", Health: "up", Times: 5, Series: 65, Total: 65}}, Head: 95, Proc: 95},
+		}}
+	case 8: // reachable but not changeable (runtime info fails), still reporting a target that left discovery
+		return h1.Replica{Shards: []h1.Shard{
+			{Ready: true, RuntimeFail: true, Status: map[uint64]h1.St{777: {State: "", Health: "up", Times: 5, Series: 20, Total: 20}}, Head: 20, Proc: 20},
+		}}
+	case 9: // full, and a target it cannot place: it needs more space
+		return h1.Replica{Shards: []h1.Shard{
+			{Ready: true, Status: map[uint64]h1.St{901: {State: "", Health: "up", Times: 5, Series: 95, Total: 95}}, Head: 95, Proc: 95},
 		}}
 	}
 	panic("kind")
@@ -218,7 +226,7 @@ func init() {
 					}
 					// with iteration orders and picks deviating (d<=1): the SET of possible observations of B
 					// is the same with and without A
-					if diff == "" && (c.Thorough() || idx%4 == 0) {
+					if diff == "" && (c.Thorough() || idx%16 == 0) {
 						s0, n0 := c19Outcomes(b.sc, 0, 1)
 						s1, n1 := c19Outcomes(with, bIdx, 1)
 						r.Transitions += int64((n0 + n1) * len(b.sc.Cycles))
